@@ -154,6 +154,19 @@ export function gen(rng, params, mode) {
     const src = decls.map(tsOfDecl).join("\n") + `\nparse.buildParsers<{ R: (${tsOf(x)}) extends (${tsOf(y)}) ? "yes" : "no" }>();\n`;
     return [A("sub"), A(String(counter++)), decls, x, y, src];
   }
+  if (rng.chance(1, 12)) {
+    // an index signature over a union against the union of the index signatures (each member is refuted at its own key)
+    const pool = [A("string"), A("number"), A("boolean"), A("null"), lit("s", "a"), lit("n", "1")];
+    const k = 2 + rng.below(2), ms = [];
+    while (ms.length < k) { const m = rng.pick(pool); if (!ms.some((x) => show(x) === show(m))) ms.push(m); }
+    const declared = rng.chance(1, 3) ? [["a", A(rng.chance(1, 2) ? "true" : "false"), ms[0]]] : [];
+    const ix = (t) => [A("obj"), declared, [A("string"), t]];
+    let x = ix([A("union"), ...ms]), y = [A("union"), ...ms.map(ix), ...(rng.chance(1, 3) ? [genLeaf(rng)] : [])];
+    if (rng.chance(1, 4)) y = [A("union"), ...y.slice(1), ix([A("union"), ms[0], ms[1]])];
+    if (rng.chance(1, 5)) [x, y] = [y, x];
+    const src = decls.map(tsOfDecl).join("\n") + `\nparse.buildParsers<{ R: (${tsOf(x)}) extends (${tsOf(y)}) ? "yes" : "no" }>();\n`;
+    return [A("sub"), A(String(counter++)), decls, x, y, src];
+  }
   if (names.length >= 2 && rng.chance(1, 8)) {
     // the right operand is a union of named types that are registered BEFORE the root of the left operand (the left one
     // mentions them in its members, so its own atom comes later): the `Greater` arms of the diagram operations
